@@ -146,6 +146,10 @@ impl Default for UptimeTracker {
 }
 
 fn get_unix_time_ms() -> Option<u64> {
+    #[cfg(huginn_net_verif)]
+    if let Some(ms) = huginn_net_verif_rt::clock::unix_ms() {
+        return Some(ms);
+    }
     let now = SystemTime::now();
     now.duration_since(UNIX_EPOCH)
         .ok()
